@@ -40,13 +40,15 @@ type Val struct {
 	Fs  []Val
 }
 
-func intVal(s string, t types.Type) Val  { return Val{K: KInt, S: s, T: t} }
-func boolVal(s string) Val               { return Val{K: KBool, S: s, T: types.Typ[types.Bool]} }
-func refVal(s string, t types.Type) Val  { return Val{K: KRef, S: s, T: t} }
-func seqVal(s string) Val                { return Val{K: KSeq, S: s, T: types.Typ[types.String]} }
-func unitVal() Val                       { return Val{K: KUnit} }
-func nilIface(t types.Type) Val          { return Val{K: KIface, T: t, Tag: "0", Pay: "null"} }
-func nilSlice(t types.Type) Val          { return Val{K: KSlice, T: t, Bas: "null", Off: "0", Len: "0", Cap: "0"} }
+func intVal(s string, t types.Type) Val { return Val{K: KInt, S: s, T: t} }
+func boolVal(s string) Val              { return Val{K: KBool, S: s, T: types.Typ[types.Bool]} }
+func refVal(s string, t types.Type) Val { return Val{K: KRef, S: s, T: t} }
+func seqVal(s string) Val               { return Val{K: KSeq, S: s, T: types.Typ[types.String]} }
+func unitVal() Val                      { return Val{K: KUnit} }
+func nilIface(t types.Type) Val         { return Val{K: KIface, T: t, Tag: "0", Pay: "null"} }
+func nilSlice(t types.Type) Val {
+	return Val{K: KSlice, T: t, Bas: "null", Off: "0", Len: "0", Cap: "0"}
+}
 
 func isTimeTime(t types.Type) bool {
 	n, ok := t.(*types.Named)
